@@ -45,7 +45,8 @@ def attr_c02(ev, names):
 
 
 def attr_c07(ev, names):
-    return fam(ev, "a") and ev["op"] in C07_OPS and any_in(names, {"fits", "wf"})
+    # "QuoInteger results additionally have exponent 0" is the exp conjunct of quoint events
+    return fam(ev, "a") and ev["op"] in C07_OPS and (any_in(names, {"fits", "wf"}) or (ev["op"] == "quoint" and "exp" in names))
 
 
 def attr_c08(ev, names):
